@@ -292,10 +292,12 @@ Definition uris_of (v : json) : option (list bytes) :=
   | _ => None      (* null: empty -> "missing also known as uris"; other types: unmarshal error *)
   end.
 
-(* The member name is pasted unescaped between double quotes into JSON text (jsonPatchAddTemplate) and that text is
-   parsed again.  The model covers names that denote themselves there: no control byte, no double quote, no backslash
-   (names come from decoded JSON, hence are valid UTF-8).  For other names the model answers [None]; the real code
-   either fails or builds a DIFFERENT patch (see the report: injection through the member name). *)
+(* The member name becomes the JSON-pointer path "/" ++ name of an "add" operation; it is written into the JSON text of the
+   generated patch as a JSON STRING (json.Marshal) and parsed again, so every name denotes itself there.  (Until the repair
+   5d68dd6, defect F17, the name was pasted unescaped between double quotes: a name with a quote, a backslash or a control
+   byte made the call fail or - injection - build a DIFFERENT patch.)  [key_plain] is kept only because the round-trip
+   theorems were first stated with it; nothing in the model tests it any more.  What remains is that '/' and '~' are not
+   JSON-pointer-escaped ([name_plain] in ComposerProofs.v - the property's own premise). *)
 Definition key_plain (k : bytes) : bool :=
   forallb (fun b => let n := Byte.to_N b in (32 <=? n)%N && negb (n =? 34)%N && negb (n =? 92)%N) k.
 
@@ -314,8 +316,7 @@ Fixpoint pfd_go (ms : list (bytes * json)) : option (list json * list json) :=
         | Some us => Some (mk_patch a_add_aka pk_uris (JArr (map JStr us)) :: dps, jps)
         | None => None
         end
-      else if key_plain k then Some (dps, jp_add_op k v :: jps)
-      else None
+      else Some (dps, jp_add_op k v :: jps)
     end
   end.
 
